@@ -59,11 +59,23 @@ def run(repo, rep, tier):
                "" if ok else f"decoder reads it under {r.mask:#x}; encoder emits {emitted.get(r.target)}: the field disappears or moves on re-save",
                key=f"C02.R1@reemit:{r.target}")
     cf = repo.func("cell.py", "Cell._copy_flags")
-    s = U(cf).replace(" ", "")
-    ok = "forflaginstorage_flags.flags()" in s and "setattr(self,flag,getattr(storage_flags,flag))" in s
-    rep.ob("C02.R1", cf, "_copy_flags copies every storage flag field to the cell", ok, "", key="C02.R1@copy_flags")
+    src_param = cf.args.args[1].arg
+    ok = False
+    via_flags = False
+    for lp in [n for n in body_walk(cf) if isinstance(n, ast.For)]:
+        it = U(lp.iter).replace(" ", "")
+        lv = U(lp.target)
+        for c in ast.walk(lp):
+            if isinstance(c, ast.Call) and call_name(c) == "setattr" and len(c.args) == 3 and U(c.args[0]) == "self":
+                a, v = c.args[1], c.args[2]
+                if isinstance(v, ast.Call) and call_name(v) == "getattr" and len(v.args) == 2 and U(v.args[0]) == src_param and U(v.args[1]) == U(a):
+                    if it == f"{src_param}.flags()" and U(a) == lv:
+                        ok, via_flags = True, True
+                    elif it in (f"fields({src_param})", f"dataclasses.fields({src_param})") and U(a) == f"{lv}.name":
+                        ok = True
+    rep.ob("C02.R1", cf, "_copy_flags copies every storage flag field to the cell", ok, "" if ok else "not every decoded attribute reaches the cell", key="C02.R1@copy_flags")
     fl = repo.func("cell.py", "CellStorageFlags.flags")
-    ok = "[x.name for x in fields(self)]" in U(fl)
+    ok = "[x.name for x in fields(self)]" in U(fl) or not via_flags
     rep.ob("C02.R1", fl, "flags() enumerates all dataclass fields", ok, "", key="C02.R1@flags-enum")
     fs = repo.func("cell.py", "Cell._from_storage")
     ok = "cell._copy_flags(storage_flags)" in U(fs) and all(x in U(fs) for x in ("cell._d128 = d128", "cell._double = double", "cell._seconds = seconds"))
